@@ -53,7 +53,7 @@ pub fn builder_from(tokens: &[&str]) -> Result<rpm::PackageBuilder, rpm::Error> 
     // `sdlast`: call source_date() AFTER the files were added (the order used in the crate's own docs)
     let sd_last = tokens.iter().any(|t| *t == "sdlast");
     if !sd_last {
-        if let Some(x) = get("sd") { b = b.source_date(x.parse::<u32>().unwrap()); }
+        if let Some(x) = get("sd") { b = apply_source_date(b, x.parse::<u32>().unwrap(), get("sdk").unwrap_or("u32")); }
     }
     if let Some(x) = get("c") {
         let (ty, lvl) = x.split_once(':').unwrap_or((x, "0"));
@@ -140,7 +140,7 @@ pub fn builder_from(tokens: &[&str]) -> Result<rpm::PackageBuilder, rpm::Error> 
         }
     }
     if sd_last {
-        if let Some(x) = get("sd") { b = b.source_date(x.parse::<u32>().unwrap()); }
+        if let Some(x) = get("sd") { b = apply_source_date(b, x.parse::<u32>().unwrap(), get("sdk").unwrap_or("u32")); }
     }
     Ok(b)
 }
@@ -218,5 +218,24 @@ pub fn eval(op: &str, a: &[&str]) -> Option<String> {
     match op {
         "build" => Some(observe_build(a)),
         _ => None,
+    }
+}
+
+/// `source_date(t)` accepts anything that converts into a `Timestamp`; `sdk=` chooses the argument type for the SAME instant:
+/// `u32` (default), `st` (SystemTime), `dt<±HHMM>` (chrono DateTime with that fixed offset). The package must not depend on it
+/// (seed C11-7: a DateTime with a non-zero offset shifted the source date).
+pub fn apply_source_date(b: rpm::PackageBuilder, secs: u32, kind: &str) -> rpm::PackageBuilder {
+    use chrono::TimeZone;
+    match kind {
+        "st" => b.source_date(std::time::UNIX_EPOCH + std::time::Duration::from_secs(secs as u64)),
+        k if k.starts_with("dt") => {
+            let off = &k[2..];
+            let sign = if off.starts_with('-') { -1 } else { 1 };
+            let digits: i32 = off.trim_start_matches(['+', '-']).parse().unwrap_or(0);
+            let east = sign * ((digits / 100) * 3600 + (digits % 100) * 60);
+            let tz = chrono::FixedOffset::east_opt(east).unwrap_or(chrono::FixedOffset::east_opt(0).unwrap());
+            b.source_date(tz.timestamp_opt(secs as i64, 0).unwrap())
+        }
+        _ => b.source_date(secs),
     }
 }
